@@ -32,7 +32,7 @@ func namesOf(ops []Op) []string {
 
 func isMutating(k string) bool {
 	switch k {
-	case "mkdir", "mkdirall", "writefile", "remove", "removeall", "rename", "chmod", "chown", "chtimes", "symlink", "create", "openfile",
+	case "mkdir", "mkdirall", "writefile", "remove", "removeall", "rename", "chmod", "chown", "chtimes", "symlink", "create", "openfile", "archive",
 		"h.write", "h.writestring", "h.writeat", "h.truncate", "h.sync", "h.close":
 		return true
 	}
@@ -146,6 +146,38 @@ func runOps(x *SeqCtx, after func(i int, op Op, res Res) *Violation) *Violation 
 	return nil
 }
 
+// insertArchives splices one or two direct Operations.Archive calls (batches of 0..3 members; an empty
+// batch writes no record at all) into a history, at positions where no handle of the history is open (a
+// write call while a read stream is open is open finding KF6).
+func insertArchives(r *rand.Rand, ops []Op, stale bool) []Op {
+	openH, spots := map[int]bool{}, []int{0}
+	for i, o := range ops {
+		switch o.K {
+		case "open", "openfile", "create":
+			openH[o.H] = true
+		case "h.close":
+			delete(openH, o.H)
+		}
+		if len(openH) == 0 {
+			spots = append(spots, i+1)
+		}
+	}
+	for k := 1 + r.IntN(2); k > 0; k-- {
+		a := Op{K: "archive", P: "/", N: r.IntN(4), D: &Data{Len: 1 + r.IntN(3000), Kind: "text", Tag: 0xa5c0 + uint32(k)*16}}
+		if stale && r.IntN(2) == 0 {
+			a.Q = "stale"
+		}
+		at := spots[r.IntN(len(spots))]
+		ops = append(append(append([]Op{}, ops[:at]...), a), ops[at:]...)
+		for i := range spots {
+			if spots[i] > at {
+				spots[i]++
+			}
+		}
+	}
+	return ops
+}
+
 func addRestarts(r *rand.Rand, ops []Op, p float64) []Op {
 	var out []Op
 	for _, o := range ops {
@@ -171,6 +203,10 @@ func init() {
 		Gen: func(r *rand.Rand, tier string, relax Relax) *Case {
 			c := &Case{Cfg: GenConfig(r, 0.5), P: map[string]int64{}, S: map[string]string{}}
 			ops, u := GenHistory(r, GenOpts{MaxOps: 14, Symlinks: r.Float64() < 0.3, Handles: r.Float64() < 0.4, Interleave: true, Sleeps: true, RS: c.Cfg.RecordSize, NoSymlinkRename: relax["symlink-rename"]})
+			if r.Float64() < 0.15 {
+				// direct Operations.Archive calls, including empty batches (an incremental backup with nothing to do)
+				ops = insertArchives(r, ops, false)
+			}
 			c.Ops = addRestarts(r, ops, 0.08)
 			c.S["style"] = u.Style
 			c.P["every"] = 1
@@ -222,6 +258,11 @@ func init() {
 				o.AvoidSuffixes = activeSuffixes(c.Cfg)
 			}
 			ops, u := GenHistory(r, o)
+			if r.Float64() < 0.25 {
+				// Operations.Archive called directly, as the command line does: batches of 0..3 members,
+				// half of them with a FileInfo that is stale by the time the file is opened
+				ops = insertArchives(r, ops, true)
+			}
 			c.Ops = addRestarts(r, ops, 0.05)
 			c.S["style"] = u.Style
 			if r.Float64() < 0.3 {
